@@ -218,7 +218,7 @@ func runC19(c *Ctx, r *Rec) {
 								}
 							}
 						}
-						if locks != 1 {
+						if locks != 1 && !recheckedInsert(g, info, fd, objKey(m)) {
 							bad = fmt.Sprintf("%s takes %s %d times: the lookup and the insert of the get-or-create are not in one critical section (two goroutines can both create the class)", c.fdName(fd), m.Name(), locks)
 						}
 						break
@@ -622,4 +622,116 @@ func checkTypeLockPairing(c *Ctx, r *Rec, rule string, n *types.Named) {
 	if strings.HasSuffix(rule, "lock-released") {
 		checkTypeNoReentry(c, r, strings.TrimSuffix(rule, "lock-released")+"no-reentry-under-lock", n)
 	}
+}
+
+// recheckedInsert: a function that takes the registry's mutex more than once is still a correct
+// get-or-create when every write to the registry sits in an exclusive region (Lock, not RLock)
+// in which the registry is looked up again before the write (double-checked binding: a first
+// lookup under the read lock, then lookup and insert under the write lock).
+func recheckedInsert(g *FG, info *types.Info, fd *ast.FuncDecl, key string) bool {
+	env := &symEnv{info: info}
+	type lockOp struct {
+		node      ast.Node
+		exclusive bool
+	}
+	var locks []lockOp
+	var unlocks []ast.Node
+	for _, b := range g.order {
+		for _, n := range b.Nodes {
+			switch mutexOp(info, env, n, key) {
+			case "lock":
+				excl := false
+				if es, ok := n.(*ast.ExprStmt); ok {
+					if _, mname, _, ok := methodCall(es.X); ok && mname == "Lock" {
+						excl = true
+					}
+				}
+				locks = append(locks, lockOp{n, excl})
+			case "unlock":
+				unlocks = append(unlocks, n)
+			}
+		}
+	}
+	regionOf := func(x ast.Node) *lockOp {
+		var best *lockOp
+		for i := range locks {
+			l := &locks[i]
+			if !g.nodeDominates(l.node, x) {
+				continue
+			}
+			closed := false
+			for _, u := range unlocks {
+				if g.nodeDominates(l.node, u) && g.nodeDominates(u, x) {
+					closed = true
+				}
+			}
+			if !closed {
+				best = l
+			}
+		}
+		return best
+	}
+	// the registry's identifiers in this function, split into writes and reads
+	var writes, reads []ast.Node
+	isReg := func(e ast.Expr) bool {
+		id, ok := ast.Unparen(e).(*ast.Ident)
+		if !ok {
+			return false
+		}
+		o := info.Uses[id]
+		v, isVar := o.(*types.Var)
+		if !isVar || v.Pkg() == nil || v.Parent() != v.Pkg().Scope() {
+			return false
+		}
+		_, isMap := v.Type().Underlying().(*types.Map)
+		return isMap
+	}
+	ast.Inspect(fd.Body, func(x ast.Node) bool {
+		switch s := x.(type) {
+		case *ast.AssignStmt:
+			for _, l := range s.Lhs {
+				if ix, ok := ast.Unparen(l).(*ast.IndexExpr); ok && isReg(ix.X) {
+					writes = append(writes, s)
+				}
+			}
+			for _, rh := range s.Rhs {
+				ast.Inspect(rh, func(y ast.Node) bool {
+					if ix, ok := y.(*ast.IndexExpr); ok && isReg(ix.X) {
+						reads = append(reads, ix)
+					}
+					return true
+				})
+			}
+			return false
+		case *ast.CallExpr:
+			if isBuiltinCall(info, s, "delete") && len(s.Args) == 2 && isReg(s.Args[0]) {
+				writes = append(writes, s)
+				return false
+			}
+		case *ast.IndexExpr:
+			if isReg(s.X) {
+				reads = append(reads, s)
+			}
+		}
+		return true
+	})
+	if len(writes) == 0 {
+		return true
+	}
+	for _, w := range writes {
+		rw := regionOf(w)
+		if rw == nil || !rw.exclusive {
+			return false
+		}
+		rechecked := false
+		for _, rd := range reads {
+			if rr := regionOf(rd); rr == rw && rd.Pos() < w.Pos() {
+				rechecked = true
+			}
+		}
+		if !rechecked {
+			return false
+		}
+	}
+	return true
 }
